@@ -91,3 +91,46 @@ contract("fparser.two.symbol_table:SymbolTable.add_use_symbols",
     raises={"*": {"nothing_recorded": "self._modules == old(self._modules)"}},
     serves=["C16"],
 )
+
+# T9: declarations register their entities in the table of the scope they appear in (C16)
+contract("fparser.two.symbol_table:SymbolTable.add_data_symbol@unchecked",
+    types=dict(self="SymbolTable", name="str", primitive_type="str"),
+    requires={"checks_off": "not self._checking_enabled"},
+    modifies=["self._data_symbols"],
+    calls={"SymbolTable.Symbol": "pure:any"},
+    ensures={"registered_in_lower_case": "name.lower() in self._data_symbols",
+             "others_kept": "dict_same_except(self._data_symbols, old(self._data_symbols), name.lower())"},
+    raises=[],
+    serves=["C16"],
+    note="the variant with checking switched off (the parser's default); with checks on SymbolTableError may be raised")
+
+contract("proto:add_data_symbol", trusted=True,
+    types=dict(self="SymbolTable", name="any", primitive_type="any"),
+    modifies=["self._data_symbols"],
+    ensures={"registered": "entity_key(name) in self._data_symbols",
+             "only_grows": "dict_subset(old(self._data_symbols), self._data_symbols)"},
+    raises={"SymbolTableError": {"unchanged": "self._data_symbols == old(self._data_symbols)"}},
+    note="SymbolTable.add_data_symbol as used by the parser: the (lower-cased) name is a key afterwards; proved separately for the unchecked variant")
+spec("entity_key", "name:any", "str", None)        # lower-cased text of an entity name node
+
+contract("fparser.two.Fortran2003:Type_Declaration_Stmt.add_to_symbol_table",
+    types=dict(result="tuple[ref:Base,any,ref:Base]?"),
+    bind={"SYMBOL_TABLES": "ref:SymbolTables"},
+    modifies=["*._data_symbols"],
+    calls={"walk": "pure:list[ref]", "table.add_data_symbol": "proto:add_data_symbol", "str": "pure:str", "isinstance": "pure:bool"},
+    ensures={
+        # every entity of an intrinsic-typed declaration ends up in the table of the *current* scope ...
+        "entities_registered_in_the_current_scope": "implies(result is not None and SYMBOL_TABLES._current_scope is not None and isinstance(nonnull(result)[0], Intrinsic_Type_Spec), "
+            "all(entity_key(walk(result, Entity_Decl)[k].items[0].string) in SYMBOL_TABLES._current_scope._data_symbols for k in range(len(walk(result, Entity_Decl)))))",
+        # ... and no other table is touched
+        "no_other_table_changes": "unchanged_except('_data_symbols', SYMBOL_TABLES._current_scope)",
+        "nothing_without_a_scope": "implies(SYMBOL_TABLES._current_scope is None or result is None, unchanged_except('_data_symbols', None))",
+    },
+    raises={"SymbolTableError": {}},
+    loops={0: dict(seq="decls", invariant={
+        "so_far": "all(entity_key(decls[k].items[0].string) in table._data_symbols for k in range(_k0))",
+        "frame": "unchanged_except('_data_symbols', table)",
+        "decls": "decls == walk(result, Entity_Decl)",
+    }, modifies=["*._data_symbols"])},
+    serves=["C16"],
+)
